@@ -744,8 +744,13 @@ theorem reach_opArrive (w : World) (s key : Nat) : Reach w (opArrive w s key) :=
       have R1 := R0.trans (reach_hostGet W s)
       split
       · exact (R1.trans (reach_emit _ _ rfl)).trans (reach_finish _ _ _)
-      · refine Reach.trans ?_ (reach_runCon _ _ _)
-        reach_close
+      · split
+        · refine Reach.trans ?_ (reach_finish _ _ _)
+          refine Reach.trans ?_ (reach_emit _ _ rfl)
+          refine Reach.trans ?_ (reach_updAux _ _ _)
+          exact R1.trans (reach_noteSent _ _)
+        · refine Reach.trans ?_ (reach_runCon _ _ _)
+          reach_close
 
 theorem reach_opEvent (w : World) (s mask : Nat) : Reach w (opEvent w s mask) := by
   unfold opEvent; dsimp only
